@@ -73,6 +73,7 @@ type Profile struct {
 	BareEntity     float64 // probability of an entity type that has no field besides id in any service
 	EmptyAbstract  float64 // probability of an interface without any implementing type, reachable from a root field
 	NodeNamedField float64 // probability that a single-object reference field of an object type is called `node` (edge.node style)
+	PartialImpl    float64 // probability that one service declares a shared value type without one of its `implements` clauses (merge-only universes)
 	ScalarArgs     bool    // fields may take an argument of the custom scalar type (meta: Stamp)
 	SpreadEnum     bool    // services declare different subsets of an enum's values (merge-only universes)
 }
@@ -96,10 +97,19 @@ type Universe struct {
 	DirDefs  []string
 	DirSvc   [][]bool              // DirSvc[d][s]: directive d is declared by service s
 	EnumSvc  map[string][][]string // EnumSvc[enum][s]: values service s declares (spread enums)
+	ImplOmit map[string]int        // ImplOmit["Type/Iface"] = service that declares Type without `implements Iface`
 	byName   map[string]*TypeDef
 }
 
 func (u *Universe) Type(n string) *TypeDef { return u.byName[n] }
+
+func (u *Universe) implOmitted(typ, iface string, svc int) bool {
+	if svc < 0 || u.ImplOmit == nil {
+		return false
+	}
+	s, ok := u.ImplOmit[typ+"/"+iface]
+	return ok && s == svc
+}
 
 func ServiceURL(i int) string { return fmt.Sprintf("http://svc%d.test/graphql", i) }
 
@@ -183,6 +193,16 @@ func NewUniverse(r *rand.Rand, p Profile) *Universe {
 		}
 		ifaces = append(ifaces, it.Name)
 		add(it)
+		if p.PartialImpl > 0 && !it.HasID {
+			for _, m := range u.Types {
+				if m.Kind == KValue && contains(m.Impl, it.Name) && r.Float64() < p.PartialImpl {
+					if u.ImplOmit == nil {
+						u.ImplOmit = map[string]int{}
+					}
+					u.ImplOmit[m.Name+"/"+it.Name] = r.Intn(u.K)
+				}
+			}
+		}
 	}
 	var unions []string
 	for i := 0; i < nu && i < len(unionNames); i++ {
@@ -587,6 +607,9 @@ func (n *needSet) needType(name string) {
 		}
 	case KValue:
 		for _, in := range t.Impl {
+			if n.u.implOmitted(t.Name, in, n.svc) {
+				continue
+			}
 			n.needType(in)
 		}
 		for _, f := range t.Fields {
@@ -712,7 +735,7 @@ func (u *Universe) SDL(svc int) string {
 		case KEntity, KValue:
 			impl := []string{}
 			for _, in := range t.Impl {
-				if n.types[in] {
+				if n.types[in] && !u.implOmitted(t.Name, in, svc) {
 					impl = append(impl, in)
 				}
 			}
